@@ -392,9 +392,12 @@ def gen_vectors(r, F, style=None):
     return out
 
 
-def gen_foreign(r, p, np):
+def gen_foreign(r, p, np, corner):
+    """A file not written by save.  core: well-formed files of the kind the name
+    announces (archives with other entries, statistics stored by numpy directly,
+    float32 raw statistics).  corner: also wrong kinds and garbage."""
     kind = path_kind(p)
-    if r.random() < 0.06:
+    if corner and r.random() < 0.15:
         kind = r.choice(["npy", "npz", "raw"])
     F = r.randint(1, 4)
     n = r.randint(1, 6)
@@ -427,7 +430,7 @@ def gen_foreign(r, p, np):
         return dict(op="write", p=p, kind="npz", compressed=r.random() < 0.4, entries=entries)
     if kind == "npy":
         s, q = stats_like()
-        u = r.random()
+        u = r.random() if corner else r.random() * 0.75
         if u < 0.4:
             a = spec("float64", (2, F + 1), s + q)
         elif u < 0.6:
@@ -440,7 +443,7 @@ def gen_foreign(r, p, np):
             a = spec("float64", (2 * F + 1,), [r.randint(-3, 9) for _ in range(2 * F + 1)])
         return dict(op="write", p=p, kind="npy", arr=a)
     # raw
-    u = r.random()
+    u = r.random() if corner else r.random() * 0.45
     s, q = stats_like()
     if u < 0.3:
         return dict(op="write", p=p, kind="raw", dtype="f32", values=[float(x) for x in s + q])
@@ -478,8 +481,14 @@ def whole(np, o):
     return st is None or bool(np.all(np.isfinite(st)) and np.all(st == np.round(st)) and np.all(np.abs(st) < 2 ** 40))
 
 
-def gen_case(ctx, rn, length):
-    """Generate and run one operation sequence; returns (ops, terms, obs, infos)."""
+def gen_case(ctx, rn, length, corner=False):
+    """Generate and run one operation sequence; returns (ops, terms, obs, infos).
+
+    core sequences stay inside what the property speaks of: keys that np.savez
+    can store, default loader arguments (force_as="file" for raw names, the key
+    for archives), well-formed foreign files.  corner sequences add reserved and
+    empty keys, explicit dtype, mismatched force_as, garbage files; they are
+    informational."""
     r = ctx.rng
     np = rn.np
     ops, terms, obss, infos = [], [], [], []
@@ -524,7 +533,7 @@ def gen_case(ctx, rn, length):
             elif r.random() < 0.8:
                 u = r.random() * 0.30  # nothing to load yet: save instead
         if u < 0.30:
-            key = None if r.random() < 0.5 else (r.choice(ODD_KEYS) if r.random() < 0.12 else r.choice(KEYS))
+            key = None if r.random() < 0.5 else (r.choice(ODD_KEYS) if corner and r.random() < 0.3 else r.choice(KEYS))
             info = emit(dict(op="save", i=i, p=p, key=key, compress=r.random() < 0.4, overwrite=r.random() < 0.55))
             if info.get("saved"):
                 last_saved[p] = key
@@ -532,11 +541,13 @@ def gen_case(ctx, rn, length):
             j = r.choice([0, 1, 2])
             kind = path_kind(p)
             on_disk = disk_kind(p)
-            dtype = None if r.random() < 0.88 else r.choice(["f64", "f32"])
+            dtype = None if not corner or r.random() < 0.6 else r.choice(["f64", "f32"])
             if kind == "raw":
-                fa = "file" if r.random() < 0.93 else r.choice([None, "npy"])
+                fa = "file" if not corner or r.random() < 0.8 else r.choice([None, "npy"])
+            elif not corner:
+                fa = None if r.random() < 0.8 else kind
             else:
-                fa = None if r.random() < 0.85 else r.choice([kind, kind, "file", "npy", "npz", "wav"])
+                fa = None if r.random() < 0.6 else r.choice([kind, "file", "npy", "npz", "wav"])
             if fa == "file" and on_disk in ("npy", "npz"):
                 fa = on_disk  # header bytes through fromfile: outside the model
             key = None
@@ -545,10 +556,11 @@ def gen_case(ctx, rn, length):
                 if v < 0.40 and last_saved.get(p) is not None:
                     key = last_saved[p]
                 elif v < 0.5:
-                    key = r.choice(KEYS + [""])
+                    key = r.choice(KEYS + ([""] if corner else []))
                 elif v < 0.85 and on_disk == "npz":
                     with np.load(p) as z:
-                        key = r.choice(z.files) if z.files else None
+                        names = [k for k in z.files if corner or (z[k].ndim == 2 and k)]
+                        key = r.choice(names) if names else None
             if dtype == "f32" and not (on_disk in ("raw", "absent") and fa == "file"):
                 dtype = "f64"  # astype(float32) may round; the cast oracle is exact only for views
             info = emit(dict(op="load", i=j, p=p, nv=r.random() < 0.7, dtype=dtype, key=key, force_as=fa))
@@ -572,7 +584,7 @@ def gen_case(ctx, rn, length):
                     st = rn.objs[i]._stats
                     F[i] = st.shape[1] - 1 if st is not None and st.ndim == 2 else None
         elif u < 0.80:
-            op = gen_foreign(r, p, np)
+            op = gen_foreign(r, p, np, corner)
             if op["kind"] == "npz" and not op["entries"]:
                 op["compressed"] = False
             emit(op)
@@ -653,13 +665,15 @@ def correspondence(ctx, np, post, config, model_ok):
         os.chdir(d)
         try:
             rn = Runner(np, post, config, d)
-            ops, terms, obss, infos = gen_case(ctx, rn, r.choice([4, 6, 8, 10, 14]))
-            cases.append((ops, case_term(rn, terms, obss), infos))
+            corner = ci % 7 == 6
+            ops, terms, obss, infos = gen_case(ctx, rn, r.choice([4, 6, 8, 10, 14]), corner)
+            cases.append((ops, case_term(rn, terms, obss), infos, corner))
         finally:
             os.chdir(cwd)
         shutil.rmtree(d, ignore_errors=True)
         roundtrip = any(i.get("saved") for i in infos) and any(i.get("loaded") for i in infos)
-        ctx.case(dict(ops=ops), nontrivial=roundtrip)
+        ctx.case(dict(ops=ops, stream="corner" if corner else "core"), nontrivial=roundtrip)
+        ctx.count("stream:" + ("corner(informational)" if corner else "core"))
         for op, info in zip(ops, infos):
             ctx.count("op:" + op["op"])
             if op["op"] == "save":
@@ -698,8 +712,14 @@ def correspondence(ctx, np, post, config, model_ok):
             if not ok:
                 bad.append((b + ci, [k], "apply: " + why))
         ctx.cov["traces_validated_against_impl"] += min(shard, len(cases) - b)
+    info_bad = [b for b in bad if cases[b[0]][3]]
+    bad = [b for b in bad if not cases[b[0]][3]]
+    ctx.cov["corner_stream_disagreements"] = len(info_bad)
+    for ci, idxs, what in info_bad[:5]:
+        ctx.log("informational: corner-stream sequence %d disagrees with the model at operation %d (%r): %s" % (
+            ci, idxs[0], cases[ci][0][idxs[0]], what))
     for ci, idxs, what in bad[:8]:
-        ops, term, infos = cases[ci]
+        ops, term, infos, _ = cases[ci]
         k = idxs[0]
         # what does the model say there?
         ans, _ = C.coq_eval(ctx, "corr_one", "Eval vm_compute in (nth %d (run_case %s) BAny).\n" % (k, term), REQ)
@@ -771,6 +791,7 @@ def numpy_facts(ctx, np):
 
 
 def search(ctx, np, post):
+    """Direct executable statement of the property on the implementation."""
     r = ctx.rng
     bad = []
     d = os.path.join(WORK, "oracle")
@@ -783,10 +804,10 @@ def search(ctx, np, post):
     def fail(name, detail):
         bad.append((name, detail))
 
-    def data_set():
-        F = r.choice([1, 2, 3, 5, 13, 40])
-        n = r.choice([1, 2, 7, 50])
-        style = r.choice(["logE", "normal", "big", "tiny", "ints", "zeros", "zcol", "mixedsign", "f32"])
+    def data_set(style=None, F=None, n=None):
+        F = F or r.choice([1, 2, 3, 5, 13, 40])
+        n = n or r.choice([1, 2, 7, 50])
+        style = style or r.choice(["logE", "normal", "big", "tiny", "ints", "zeros", "zcol", "mixedsign", "f32", "bigcount"])
         if style == "logE":
             x = -nprng.gamma(2.0, 5.0, size=(n, F)) - 1.0
         elif style == "normal":
@@ -804,9 +825,22 @@ def search(ctx, np, post):
             x[:, r.randrange(F)] = 0
         elif style == "f32":
             x = (nprng.randn(n, F) * 3 - 20).astype(np.float32)
+        elif style == "bigcount":
+            x = nprng.randn(3000, F) - 7
         else:
             x = nprng.randn(n, F) * nprng.choice([-1e3, 1.0, 1e-3], size=(1, F))
         return style, x
+
+    def build(x, nv, byrow):
+        o = post.Standardize(norm_var=nv)
+        with warnings.catch_warnings():
+            warnings.simplefilter("ignore")
+            if byrow and len(x) <= 60:
+                for row in x:
+                    o.accumulate(row)
+            else:
+                o.accumulate(x)
+        return o
 
     def same_transform(a, b, F, nv, what, detail):
         with warnings.catch_warnings():
@@ -830,59 +864,51 @@ def search(ctx, np, post):
                     return False
         return True
 
-    targets = [("npy", "o.npy"), ("npz", "o.npz"), ("raw", "o.bin"), ("raw", "o_stats"), ("raw", "o.npz.old")]
-    niter = ctx.scale(250, 3000)
-    for it in range(niter):
-        style, x = data_set()
+    FOREIGN = lambda: r.choice([  # noqa: E731
+        nprng.randn(2, 3), nprng.randint(0, 9, size=(4,)), np.array(3.5), np.array(["a", "bc"]),
+        nprng.randn(2, 2, 2).astype(np.float32), np.zeros((0,)), np.array([True, False]), nprng.randn(2, 4)])
+
+    def trial(*a, **k):
+        try:
+            trial_(*a, **k)
+        except Exception as e:  # e.g. the file is not where, or not what, save was asked to write
+            fail("oracle_check_crashed", dict(args=[str(v)[:60] for v in a[2:]], exception=type(e).__name__, message=str(e)[:200]))
+
+    def trial_(style, x, kind, p, key, compress, overwrite, existing, nsaves, byrow=False, load_forced=False):
+        """existing: absent | own (left by an earlier save of other statistics) | foreign (np.savez archive)"""
         F = x.shape[1]
-        byrow = r.random() < 0.5
-        originals = {}
-        for nv in (True, False):
-            o = post.Standardize(norm_var=nv)
-            with warnings.catch_warnings():
-                warnings.simplefilter("ignore")
-                if byrow:
-                    for row in x:
-                        o.accumulate(row)
-                else:
-                    o.accumulate(x)
-            originals[nv] = o
+        originals = {nv: build(x, nv, byrow) for nv in (True, False)}
         s = originals[r.random() < 0.5]
-        kind = r.choice(["npy", "npz", "raw"])
-        p = r.choice([t[1] for t in targets if t[0] == kind])
-        for q in [t[1] for t in targets]:
-            if os.path.exists(q) and r.random() < 0.5:
-                os.remove(q)
-        key = None if r.random() < 0.5 else r.choice(["foo", "arr_0", "arr_3", "stats/x"])
-        compress = r.random() < 0.5
-        overwrite = r.random() < 0.5
-        detail = dict(data_style=style, dtype=str(x.dtype), shape=list(x.shape), sums=s._stats[0, :3].tolist(), path=p, key=key, compress=compress, overwrite=overwrite)
-        ctx.count("oracle:" + kind)
+        detail = dict(data_style=style, dtype=str(x.dtype), shape=list(x.shape), sums=s._stats[0, :3].tolist(), path=p,
+                      key=key, compress=compress, overwrite=overwrite, existing=existing, saves=nsaves)
+        ctx.count("oracle:%s:%s" % (kind, existing))
         ctx.count("oracle-data:" + style)
-        # -- a pre-existing archive with other entries
+        if os.path.exists(p):
+            os.remove(p)
         others = {}
-        if kind == "npz" and r.random() < 0.6:
-            names = r.sample(["arr_0", "arr_1", "arr_2", "arr_4", "foo", "meta", "labels"], r.randint(1, 4))
-            for nme in names:
-                others[nme] = r.choice([
-                    nprng.randn(2, 3), nprng.randint(0, 9, size=(4,)), np.array(3.5), np.array(["a", "bc"]),
-                    nprng.randn(2, 2, 2).astype(np.float32), np.zeros((0,)), np.array([True, False])])
-            (np.savez_compressed if r.random() < 0.5 else np.savez)(p, **others)
+        if existing == "own":
+            o0 = build(nprng.randn(3, r.choice([F, F + 1])) - 2, True, False)
+            o0.save(p, key=r.choice([None, "foo", "arr_1"]) if kind == "npz" else None, compress=r.random() < 0.5)
+        elif existing == "foreign" and kind == "npz":
+            names = r.sample(["arr_0", "arr_1", "arr_2", "arr_4", "foo", "meta", "labels", "Meta", "_x", "arr_00", "arr_"], r.randint(1, 4))
+            (np.savez_compressed if r.random() < 0.5 else np.savez)(p, **{nme: FOREIGN() for nme in names})
+        if kind == "npz" and os.path.exists(p):
+            with np.load(p) as z:
+                others = {k: z[k] for k in z.files}
             detail["existing_entries"] = list(others)
-        elif kind == "npz" and os.path.exists(p):
-            if r.random() < 0.5:
-                os.remove(p)
-            else:
-                with np.load(p) as z:  # left by an earlier iteration
-                    others = {k: z[k] for k in z.files}
-                detail["existing_entries"] = list(others)
-        nsaves = r.choice([1, 2, 3])
+        with warnings.catch_warnings():
+            warnings.simplefilter("ignore")
+            ref = [originals[True].apply(np.ones(F))]
         try:
             for _ in range(nsaves):
                 s.save(p, key=key, compress=compress, overwrite=overwrite)
         except Exception as e:
-            fail("save_raises", dict(detail, exception=type(e).__name__, message=str(e)[:200], saves=nsaves))
-            continue
+            fail("save_raises", dict(detail, exception=type(e).__name__, message=str(e)[:200]))
+            return
+        with warnings.catch_warnings():
+            warnings.simplefilter("ignore")
+            if not np.array_equal(ref[0], originals[True].apply(np.ones(F)), equal_nan=True):
+                fail("save_changed_the_object", detail)
         # -- what was written
         if kind == "npy":
             a = np.load(p)
@@ -902,8 +928,7 @@ def search(ctx, np, post):
                 used = key
                 if key is None:
                     base = set(others)
-                    # each of the nsaves calls takes the first arr_k unused in what it loaded
-                    exp_keys = []
+                    exp_keys = []  # each save takes the first arr_k unused in what it loaded
                     for _ in range(nsaves):
                         cur = set() if overwrite else base
                         k = 0
@@ -916,38 +941,80 @@ def search(ctx, np, post):
                 else:
                     expect = ([] if overwrite else list(others)) + ([key] if (overwrite or key not in others) else [])
                 if files != expect:
-                    fail("npz_entries", dict(detail, entries=files, expected=expect, saves=nsaves))
+                    fail("npz_entries", dict(detail, entries=files, expected=expect))
                 else:
                     for nme, val in others.items():
-                        if nme in files and nme != used and not (key is None and nme in expect[len(others):]):
+                        if nme in files and nme != used:
                             got = z[nme]
                             if got.dtype != val.dtype or got.shape != val.shape or not np.array_equal(got, val):
                                 fail("npz_other_entry_changed", dict(detail, entry=nme))
-                    if used in files:
-                        got = z[used]
+                    for k in (exp_keys if key is None and not overwrite else [used]):
+                        got = z[k]
                         if got.dtype != np.float64 or not np.array_equal(got, s._stats, equal_nan=True):
-                            fail("npz_content", dict(detail, entry=used))
+                            fail("npz_content", dict(detail, entry=k))
             detail["entry"] = used
         # -- reload
         kw = {}
         if kind == "raw":
             kw["force_as"] = "file"
         elif kind == "npz":
-            if not (key is None and detail.get("entry") == "arr_0" and r.random() < 0.7):
+            if not (detail.get("entry") == "arr_0" and r.random() < 0.7):
                 kw["key"] = detail.get("entry")
-        elif r.random() < 0.3:
-            kw["force_as"] = kind
+            if load_forced:
+                kw["force_as"] = "npz"
+        elif load_forced:
+            kw["force_as"] = "npy"
+        lk = {k: str(v) for k, v in kw.items()}
+        reloaded = {}
         for nv in (True, False):
             try:
                 with warnings.catch_warnings():
                     warnings.simplefilter("ignore")
-                    s2 = post.Standardize(p, norm_var=nv, **kw)
+                    reloaded[nv] = post.Standardize(p, norm_var=nv, **kw)
             except Exception as e:
-                fail("reload_raises", dict(detail, load_kwargs={k: str(v) for k, v in kw.items()}, exception=type(e).__name__, message=str(e)[:200]))
-                break
-            if not same_transform(originals[nv], s2, F, nv, "reload_differs", dict(detail, load_kwargs={k: str(v) for k, v in kw.items()})):
-                break
+                fail("reload_raises", dict(detail, load_kwargs=lk, exception=type(e).__name__, message=str(e)[:200]))
+                return
+            if not same_transform(originals[nv], reloaded[nv], F, nv, "reload_differs", dict(detail, load_kwargs=lk)):
+                return
+        # -- the reloaded object goes on like the original: accumulate more, save elsewhere, reload
+        more = nprng.randn(2, F) * 3 - 1
+        kind2, p2 = r.choice([("npy", "second.npy"), ("npz", "second.npz"), ("raw", "second.bin")])
+        try:
+            with warnings.catch_warnings():
+                warnings.simplefilter("ignore")
+                originals[True].accumulate(more)
+                reloaded[True].accumulate(more)
+                if os.path.exists(p2):
+                    os.remove(p2)
+                reloaded[True].save(p2, compress=compress)
+                third = post.Standardize(p2, **({"force_as": "file"} if kind2 == "raw" else {}))
+        except Exception as e:
+            fail("reloaded_object_unusable", dict(detail, load_kwargs=lk, second=p2, exception=type(e).__name__, message=str(e)[:200]))
+            return
+        if same_transform(originals[True], reloaded[True], F, True, "continued_accumulation_differs", dict(detail, load_kwargs=lk)):
+            same_transform(originals[True], third, F, True, "second_generation_differs", dict(detail, load_kwargs=lk, second=p2))
         ctx.case(dict(oracle=detail), nontrivial=True)
+
+    names = {"npy": ["o.npy", "x.y.npy", "o.npz.npy"], "npz": ["o.npz", "o.npy.npz"],
+             "raw": ["o.bin", "o_stats", "o.npz.old", "o.NPZ", "o_npy", "onpz", "o.npy.txt"]}
+    # exhaustive small scope: every target x key x compress x overwrite x what is already there
+    for style in ("logE", "zcol"):
+        _, x = data_set(style, F=3, n=4)
+        for kind in ("npy", "npz", "raw"):
+            for existing in (("absent", "own", "foreign") if kind == "npz" else ("absent", "own")):
+                for key in ((None, "foo", "arr_0", "arr_1") if kind == "npz" else (None, "foo")):
+                    for compress in (False, True):
+                        for overwrite in (False, True):
+                            trial(style, x, kind, names[kind][0], key, compress, overwrite, existing, 1 if kind != "npz" else r.choice([1, 2]))
+    # random
+    for it in range(ctx.scale(250, 3000)):
+        style, x = data_set()
+        kind = r.choice(["npy", "npz", "raw"])
+        trial(style, x, kind, r.choice(names[kind]),
+              None if r.random() < 0.5 else r.choice(["foo", "arr_0", "arr_3", "stats/x", "arr_1"]),
+              r.random() < 0.5, r.random() < 0.5,
+              r.choice(["absent", "own", "foreign"] if kind == "npz" else ["absent", "own"]),
+              r.choice([1, 1, 2, 3]), byrow=r.random() < 0.5, load_forced=r.random() < 0.25)
     # -- no statistics
     for p in ("n.npy", "n.npz", "n.bin"):
         for pre in (False, True):
@@ -975,6 +1042,7 @@ def search(ctx, np, post):
                     fail("save_without_stats_modified_file", dict(path=p, object=obj))
                 if not pre and os.path.exists(p):
                     fail("save_without_stats_created_file", dict(path=p, object=obj))
+                ctx.count("oracle:no-stats")
     os.chdir(cwd)
     shutil.rmtree(d, ignore_errors=True)
     return bad
